@@ -9,6 +9,7 @@ error.  The tree builder is tracked by `BInv`: relative nesting depth, the untou
 parent stack, and the fact that the frame at relative depth 0 only grew.
 -/
 import TgModel.Lemmas.C04Kinds
+import TgModel.Lemmas.C04AccTree
 
 namespace Tg
 namespace C04L
@@ -18,14 +19,24 @@ structure AState where
   flag : Bool
   depth : Nat
   locals : List Bool
-  cps : List Nat        -- saved checkpoints: how many nodes up from the innermost open node each points
+  /-- saved checkpoints: how many nodes up from the innermost open node each points, and the child-node
+  kinds that node had when the checkpoint was taken -/
+  cps : List (Nat × List SyntaxKind)
   norm : Bool
+  /-- kinds of the child nodes of the innermost open node, most recent first -/
+  cur : List SyntaxKind
+  /-- the enclosing open nodes (relative to the start) with the child-node kinds they had -/
+  ps : List (SyntaxKind × List SyntaxKind)
 deriving DecidableEq, Repr
 
+abbrev CpStack := List (Nat × List SyntaxKind)
+
 /-- a node was opened: every checkpoint is one level further up -/
-def cpsUp (cps : List Nat) : List Nat := cps.map (· + 1)
+def cpsUp (cps : CpStack) : CpStack := cps.map fun p => (p.1 + 1, p.2)
 /-- a node was closed -/
-def cpsDown (cps : List Nat) : List Nat := cps.map (· - 1)
+def cpsDown (cps : CpStack) : CpStack := cps.map fun p => (p.1 - 1, p.2)
+/-- some checkpoint points at the innermost open node -/
+def hasTop (cps : CpStack) : Bool := cps.any fun p => p.1 == 0
 
 def apeek (a : AState) : TokenKind := a.ks.headD .Eof
 
@@ -39,16 +50,25 @@ def aexec (defs : Defs) : Nat → Prog → AState → Option AState
   | fuel+1, p, a =>
     match p with
     | .nop => some a
-    | .startNode _ => some { a with depth := a.depth + 1, cps := cpsUp a.cps }
+    | .startNode k => some { a with depth := a.depth + 1, cps := cpsUp a.cps, cur := [], ps := (k, a.cur) :: a.ps }
     | .finishNode =>
       match a.depth with
       | 0 => none
-      | d+1 => if a.cps.contains 0 then none else some { a with depth := d, cps := cpsDown a.cps }
-    | .pushCp => if a.cps.contains 0 then none else some { a with cps := 0 :: a.cps }
+      | d+1 =>
+        if hasTop a.cps then none else
+        match a.ps with
+        | [] => none
+        | (k, sibs) :: ps =>
+          -- the node that is closed must hand all its child nodes to its accessors
+          if goodNode k a.cur.reverse then some { a with depth := d, cps := cpsDown a.cps, cur := k :: sibs, ps := ps }
+          else none
+    | .pushCp => if hasTop a.cps then none else some { a with cps := (0, a.cur) :: a.cps }
     | .popCp => some { a with cps := a.cps.tail }
-    | .startNodeAtCp _ =>
+    | .startNodeAtCp k =>
       match a.cps with
-      | 0 :: _ => some { a with depth := a.depth + 1, cps := cpsUp a.cps }
+      | (0, C) :: _ =>
+        some { a with depth := a.depth + 1, cps := cpsUp a.cps, cur := a.cur.take (a.cur.length - C.length),
+                      ps := (k, C) :: a.ps }
       | _ => none
     | .eat => if a.norm then aeat a else none
     | .skip => some { a with norm := true }
@@ -150,101 +170,205 @@ theorem frameOf_grow_len (n cur : List Tree) (ps : List (SyntaxKind × List Tree
   | zero => simp [frameOf]
   | succ j => rw [frameOf_pos (n ++ cur) cur]; exact Nat.le_refl _
 
+/-! ### child-node kinds of the frames -/
+
+theorem kindsOf_append (a b : List Tree) : kindsOf (a ++ b) = kindsOf a ++ kindsOf b := by
+  induction a with
+  | nil => rfl
+  | cons t ts ih => cases t <;> simp [kindsOf, ih]
+
+theorem kindsOf_reverse (a : List Tree) : kindsOf a.reverse = (kindsOf a).reverse := by
+  induction a with
+  | nil => rfl
+  | cons t ts ih => cases t <;> simp [kindsOf, kindsOf_append, ih]
+
+theorem goodL_append (a b : List Tree) : goodL (a ++ b) = (goodL a && goodL b) := by
+  induction a with
+  | nil => simp [goodL]
+  | cons t ts ih => simp [goodL, ih, Bool.and_assoc]
+
+theorem goodL_reverse (a : List Tree) : goodL a.reverse = goodL a := by
+  induction a with
+  | nil => rfl
+  | cons t ts ih => simp [goodL, goodL_append, ih, Bool.and_comm]
+
+theorem kindsOf_allTok {n : List Tree} (h : allTok n = true) : kindsOf n = [] ∧ goodL n = true := by
+  induction n with
+  | nil => exact ⟨rfl, rfl⟩
+  | cons t ts ih =>
+    cases t with
+    | token k txt => simp only [allTok] at h; simpa [kindsOf, goodL, goodT] using ih h
+    | node k cs => simp [allTok] at h
+
+theorem goodL_take_drop (n : Nat) (a : List Tree) (h : goodL a = true) :
+    goodL (a.take n) = true ∧ goodL (a.drop n) = true := by
+  have := goodL_append (a.take n) (a.drop n)
+  rw [List.take_append_drop, h] at this
+  simpa using this.symm
+
+/-- the real frames (innermost first, down to the base) and the abstract ones: same child-node kinds,
+and every tree in them satisfies the accessor criterion -/
+inductive FR (P0 : List (SyntaxKind × List Tree)) :
+    List Tree → List (SyntaxKind × List Tree) → List SyntaxKind → List (SyntaxKind × List SyntaxKind) → Prop where
+  | base {cur : List Tree} {acur : List SyntaxKind} :
+      kindsOf cur = acur → goodL cur = true → FR P0 cur P0 acur []
+  | step {cur sibs : List Tree} {k : SyntaxKind} {ps : List (SyntaxKind × List Tree)} {acur asibs : List SyntaxKind}
+      {aps : List (SyntaxKind × List SyntaxKind)} :
+      kindsOf cur = acur → goodL cur = true → FR P0 sibs ps asibs aps →
+      FR P0 cur ((k, sibs) :: ps) acur ((k, asibs) :: aps)
+
+theorem FR.top {P0 cur ps acur aps} (h : FR P0 cur ps acur aps) : kindsOf cur = acur ∧ goodL cur = true := by
+  cases h with
+  | base h1 h2 => exact ⟨h1, h2⟩
+  | step h1 h2 _ => exact ⟨h1, h2⟩
+
+/-- replace the innermost frame -/
+theorem FR.setTop {P0 cur ps acur aps cur' acur'} (h : FR P0 cur ps acur aps)
+    (h1 : kindsOf cur' = acur') (h2 : goodL cur' = true) : FR P0 cur' ps acur' aps := by
+  cases h with
+  | base _ _ => exact FR.base h1 h2
+  | step _ _ hr => exact FR.step h1 h2 hr
+
+/-- tokens were pushed -/
+theorem FR.grow {P0 cur ps acur aps} (h : FR P0 cur ps acur aps) {n : List Tree} (hn : allTok n = true) :
+    FR P0 (n ++ cur) ps acur aps := by
+  obtain ⟨k1, k2⟩ := kindsOf_allTok hn
+  obtain ⟨t1, t2⟩ := h.top
+  exact h.setTop (by rw [kindsOf_append, k1, t1]; rfl) (by rw [goodL_append, k2, t2]; rfl)
+
+theorem FR.start {P0 cur ps acur aps} (h : FR P0 cur ps acur aps) (k : SyntaxKind) :
+    FR P0 [] ((k, cur) :: ps) [] ((k, acur) :: aps) := FR.step rfl rfl h
+
+/-- `finish_node`: the closed node satisfies the criterion because the abstract run checked it -/
+theorem FR.finish {P0 cur sibs k ps acur asibs aps} (h : FR P0 cur ((k, sibs) :: ps) acur ((k, asibs) :: aps))
+    (hg : goodNode k acur.reverse = true) :
+    FR P0 (Tree.node k cur.reverse :: sibs) ps (k :: asibs) aps := by
+  cases h with
+  | step h1 h2 hr =>
+    obtain ⟨t1, t2⟩ := hr.top
+    refine hr.setTop (by simp [kindsOf, t1]) ?_
+    simp only [goodL, goodT, Bool.and_eq_true]
+    refine ⟨⟨?_, by rw [goodL_reverse]; exact h2⟩, t2⟩
+    rw [kindsOf_reverse, h1]; exact hg
+
 /-! ### checkpoints -/
 
 /-- a saved checkpoint `(parents.length, cur.length)` that points `j` open nodes up: it is still
-inside that node's children, and if that node is the base frame it lies above the base content -/
-@[reducible] def CpRel (C0 : List Tree) (b : Builder) (depth : Nat) (real : Nat × Nat) (j : Nat) : Prop :=
-  real.1 + j = b.parents.length ∧ real.2 ≤ (frameOf b.cur b.parents j).length ∧
-    (j = depth → C0.length ≤ real.2)
+inside that node's children; if that node is the base frame it lies above the base content; the part
+of the frame below it has child-node kinds `C` -/
+@[reducible] def CpRel (C0 : List Tree) (b : Builder) (depth : Nat) (real : Nat × Nat) (q : Nat × List SyntaxKind) : Prop :=
+  real.1 + q.1 = b.parents.length ∧ real.2 ≤ (frameOf b.cur b.parents q.1).length ∧
+    (q.1 = depth → C0.length ≤ real.2) ∧
+    kindsOf ((frameOf b.cur b.parents q.1).drop ((frameOf b.cur b.parents q.1).length - real.2)) = q.2
 
-/-- pointwise relation between the real and the abstract checkpoint stacks; abstract entries are
+/-- pointwise relation between the real and the abstract checkpoint stacks; the abstract levels are
 pairwise different -/
-inductive CpAll (R : Nat × Nat → Nat → Prop) : List (Nat × Nat) → List Nat → Prop where
+inductive CpAll (R : Nat × Nat → Nat × List SyntaxKind → Prop) : List (Nat × Nat) → CpStack → Prop where
   | nil : CpAll R [] []
-  | cons {a : Nat × Nat} {j : Nat} {as : List (Nat × Nat)} {js : List Nat} :
-      R a j → j ∉ js → CpAll R as js → CpAll R (a :: as) (j :: js)
+  | cons {a : Nat × Nat} {q : Nat × List SyntaxKind} {as : List (Nat × Nat)} {qs : CpStack} :
+      R a q → (∀ q' ∈ qs, q'.1 ≠ q.1) → CpAll R as qs → CpAll R (a :: as) (q :: qs)
 
-theorem CpAll.map {R S : Nat × Nat → Nat → Prop} (f : Nat → Nat) {as : List (Nat × Nat)} {js : List Nat}
-    (h : CpAll R as js) (hinj : ∀ x ∈ js, ∀ y ∈ js, f x = f y → x = y)
-    (hR : ∀ a j, j ∈ js → R a j → S a (f j)) : CpAll S as (js.map f) := by
+theorem CpAll.map {R S : Nat × Nat → Nat × List SyntaxKind → Prop} (f : Nat → Nat) {as : List (Nat × Nat)} {qs : CpStack}
+    (h : CpAll R as qs) (hinj : ∀ x ∈ qs, ∀ y ∈ qs, f x.1 = f y.1 → x.1 = y.1)
+    (hR : ∀ a q, q ∈ qs → R a q → S a (f q.1, q.2)) : CpAll S as (qs.map fun p => (f p.1, p.2)) := by
   induction h with
   | nil => exact CpAll.nil
-  | @cons a j as js hr hni _ ih =>
-    refine CpAll.cons (hR a j (List.mem_cons_self ..) hr) ?_ (ih ?_ ?_)
-    · intro hm
-      obtain ⟨y, hy, hfy⟩ := List.mem_map.mp hm
-      have := hinj y (List.mem_cons_of_mem _ hy) j (List.mem_cons_self ..) hfy
-      subst this; exact hni hy
+  | @cons a q as qs hr hni _ ih =>
+    refine CpAll.cons (hR a q (List.mem_cons_self ..) hr) ?_ (ih ?_ ?_)
+    · intro q' hm hq'
+      obtain ⟨y, hy, rfl⟩ := List.mem_map.mp hm
+      simp only [] at hq'
+      exact hni y hy (hinj y (List.mem_cons_of_mem _ hy) q (List.mem_cons_self ..) hq')
     · intro x hx y hy; exact hinj x (List.mem_cons_of_mem _ hx) y (List.mem_cons_of_mem _ hy)
-    · intro a j hj; exact hR a j (List.mem_cons_of_mem _ hj)
+    · intro a q hq; exact hR a q (List.mem_cons_of_mem _ hq)
 
-theorem CpAll.imp {R S : Nat × Nat → Nat → Prop} {as : List (Nat × Nat)} {js : List Nat}
-    (h : CpAll R as js) (hR : ∀ a j, j ∈ js → R a j → S a j) : CpAll S as js := by
-  have := h.map (S := S) id (fun x _ y _ hxy => hxy) hR
+theorem CpAll.imp {R S : Nat × Nat → Nat × List SyntaxKind → Prop} {as : List (Nat × Nat)} {qs : CpStack}
+    (h : CpAll R as qs) (hR : ∀ a q, q ∈ qs → R a q → S a q) : CpAll S as qs := by
+  have := h.map (S := S) id (fun x _ y _ hxy => hxy) (fun a q hq hr => hR a q hq hr)
   simpa using this
 
-theorem CpAll.tail {R : Nat × Nat → Nat → Prop} {as : List (Nat × Nat)} {js : List Nat}
-    (h : CpAll R as js) : CpAll R as.tail js.tail := by
+theorem CpAll.tail {R : Nat × Nat → Nat × List SyntaxKind → Prop} {as : List (Nat × Nat)} {qs : CpStack}
+    (h : CpAll R as qs) : CpAll R as.tail qs.tail := by
   cases h with
   | nil => exact CpAll.nil
   | cons _ _ ht => exact ht
 
-abbrev CpInv (C0 : List Tree) (b : Builder) (depth : Nat) (scps : List (Nat × Nat)) (acps : List Nat) : Prop :=
+abbrev CpInv (C0 : List Tree) (b : Builder) (depth : Nat) (scps : List (Nat × Nat)) (acps : CpStack) : Prop :=
   CpAll (CpRel C0 b depth) scps acps
 
+theorem hasTop_false {cps : CpStack} (h : hasTop cps = false) : ∀ q ∈ cps, q.1 ≠ 0 := by
+  intro q hq h0
+  have : hasTop cps = true := List.any_eq_true.mpr ⟨q, hq, by simp [h0]⟩
+  rw [this] at h; cases h
+
+theorem drop_grow (n F : List Tree) (cl : Nat) (h : cl ≤ F.length) :
+    (n ++ F).drop ((n ++ F).length - cl) = F.drop (F.length - cl) := by
+  have : (n ++ F).length - cl = n.length + (F.length - cl) := by rw [List.length_append]; omega
+  rw [this, List.drop_append, List.drop_eq_nil_of_le (by omega), Nat.add_sub_cancel_left]; rfl
+
 theorem CpInv.grow' {C0 b b' d scps acps} (h : CpInv C0 b d scps acps) (hp : b'.parents = b.parents)
-    (hc : ∃ n, b'.cur = n ++ b.cur) : CpInv C0 b' d scps acps := by
-  obtain ⟨n, hc⟩ := hc
+    (hc : ∃ n, b'.cur = n ++ b.cur ∧ allTok n = true) : CpInv C0 b' d scps acps := by
+  obtain ⟨n, hc, _⟩ := hc
   apply CpAll.imp h
-  intro real j _ hr
-  obtain ⟨h1, h2, h3⟩ := hr
-  refine ⟨by rw [hp]; exact h1, ?_, h3⟩
-  rw [hp, hc]; exact Nat.le_trans h2 (frameOf_grow_len ..)
+  intro real q _ hr
+  obtain ⟨h1, h2, h3, h4⟩ := hr
+  refine ⟨by rw [hp]; exact h1, ?_, h3, ?_⟩
+  · rw [hp, hc]; exact Nat.le_trans h2 (frameOf_grow_len ..)
+  · rw [hp, hc]
+    cases hq : q.1 with
+    | zero =>
+      rw [hq] at h2 h4
+      simp only [frameOf] at h2 h4 ⊢
+      rw [drop_grow n b.cur real.2 h2]; exact h4
+    | succ j => rw [hq] at h4; rw [frameOf_pos (n ++ b.cur) b.cur]; exact h4
 
 theorem CpInv.start {C0 b d scps acps} (h : CpInv C0 b d scps acps) (k : SyntaxKind) :
     CpInv C0 { cur := [], parents := (k, b.cur) :: b.parents } (d+1) scps (cpsUp acps) := by
   apply CpAll.map (· + 1) h
   · intro x _ y _ hxy; omega
-  · intro real j _ hr
-    obtain ⟨h1, h2, h3⟩ := hr
-    refine ⟨by simp only [List.length_cons]; omega, h2, fun hj => h3 (by omega)⟩
+  · intro real q _ hr
+    obtain ⟨h1, h2, h3, h4⟩ := hr
+    exact ⟨by simp only [List.length_cons]; omega, h2, fun hj => h3 (by omega), h4⟩
 
 theorem CpInv.finish {C0 b d scps acps k sibs ps} (h : CpInv C0 b (d+1) scps acps)
-    (hp : b.parents = (k, sibs) :: ps) (h0 : acps.contains 0 = false) (t : Tree) :
+    (hp : b.parents = (k, sibs) :: ps) (h0 : hasTop acps = false) (t : Tree) :
     CpInv C0 { cur := t :: sibs, parents := ps } d scps (cpsDown acps) := by
-  have h0' : ∀ x ∈ acps, x ≠ 0 := by
-    intro x hx hx0; subst hx0
-    have : acps.contains 0 = true := by simpa using hx
-    rw [this] at h0; cases h0
+  have h0' := hasTop_false h0
   apply CpAll.map (· - 1) h
   · intro x hx y hy hxy
     have := h0' x hx; have := h0' y hy; omega
-  · intro real j hj hr
-    obtain ⟨h1, h2, h3⟩ := hr
-    obtain ⟨j', rfl⟩ : ∃ j', j = j' + 1 := ⟨j - 1, by have := h0' j hj; omega⟩
-    rw [hp] at h1 h2
+  · intro real q hq hr
+    obtain ⟨h1, h2, h3, h4⟩ := hr
+    obtain ⟨j', hj'⟩ : ∃ j', q.1 = j' + 1 := ⟨q.1 - 1, by have := h0' q hq; omega⟩
+    rw [hj', hp] at h1 h2 h4
+    rw [hj'] at h3
     simp only [List.length_cons] at h1
-    simp only [frameOf] at h2
-    refine ⟨by simp only [Nat.add_sub_cancel]; omega, ?_, fun hj => h3 (by simp only [Nat.add_sub_cancel] at hj; omega)⟩
-    simp only [Nat.add_sub_cancel]
-    cases j' with
-    | zero => simp only [frameOf] at h2 ⊢; simp only [List.length_cons]; omega
-    | succ j' => rw [frameOf_pos _ sibs]; exact h2
+    simp only [frameOf] at h2 h4
+    simp only [hj', Nat.add_sub_cancel]
+    refine ⟨by show real.1 + j' = ps.length; omega, ?_, fun hj => h3 (by omega), ?_⟩
+    · cases j' with
+      | zero => simp only [frameOf] at h2 ⊢; simp only [List.length_cons]; omega
+      | succ j' => rw [frameOf_pos _ sibs]; exact h2
+    · cases j' with
+      | zero =>
+        simp only [frameOf] at h2 h4 ⊢
+        have := drop_grow [t] sibs real.2 h2
+        simp only [List.cons_append, List.nil_append] at this
+        rw [this]; exact h4
+      | succ j' => rw [frameOf_pos _ sibs]; exact h4
 
 theorem CpInv.push {C0 P0 b d scps acps} (h : CpInv C0 b d scps acps) (hb : BInv C0 P0 b d)
-    (h0 : acps.contains 0 = false) :
-    CpInv C0 b d ((b.parents.length, b.cur.length) :: scps) (0 :: acps) := by
-  refine CpAll.cons ⟨rfl, by simp [frameOf], ?_⟩ ?_ h
+    (h0 : hasTop acps = false) (acur : List SyntaxKind) (hk : kindsOf b.cur = acur) :
+    CpInv C0 b d ((b.parents.length, b.cur.length) :: scps) ((0, acur) :: acps) := by
+  refine CpAll.cons ⟨rfl, by simp [frameOf], ?_, by simp [frameOf, hk]⟩ ?_ h
   · intro hd
     obtain ⟨new, e⟩ := hb.fr
+    simp only [] at hd
     rw [← hd] at e
     simp only [frameOf] at e
     show C0.length ≤ b.cur.length
     rw [e, List.length_append]; omega
-  · intro hm
-    have : acps.contains 0 = true := by simpa using hm
-    rw [this] at h0; cases h0
+  · intro q hq; exact hasTop_false h0 q hq
 
 /-! ### the abstraction relation -/
 
@@ -257,6 +381,7 @@ structure Abs (input : List Char) (C0 : List Tree) (P0 : List (SyntaxKind × Lis
   norm : a.norm = true → Norm s
   b : BInv C0 P0 s.b a.depth
   cp : CpInv C0 s.b a.depth s.cps a.cps
+  fr : FR P0 s.b.cur s.b.parents a.cur a.ps
 
 section
 variable {input : List Char} {C0 : List Tree} {P0 : List (SyntaxKind × List Tree)}
@@ -266,7 +391,7 @@ theorem Abs.cur {s a} (h : Abs input C0 P0 s a) (hn : a.norm = true) : s.cur = a
 
 theorem Abs.setFlag {s a} (h : Abs input C0 P0 s a) (b : Bool) :
     Abs input C0 P0 { s with flag := b } { a with flag := b } :=
-  ⟨PState.inv_flag h.inv b, h.ks, rfl, h.locals, h.norm, h.b, h.cp⟩
+  ⟨PState.inv_flag h.inv b, h.ks, rfl, h.locals, h.norm, h.b, h.cp, h.fr⟩
 
 theorem finishNode_kinds {s s' : PState} (h : s.finishNode = .ok s') : s'.kinds = s.kinds := by
   unfold PState.finishNode at h
@@ -292,29 +417,36 @@ theorem sim_eat {s a a'} (h : Abs input C0 P0 s a) (hn : a.norm = true) (he : ae
         intro hc; rw [kinds_eof hc] at hkin; cases hkin
       obtain ⟨s', hs', hi'⟩ := eat_ok h.inv
       obtain ⟨hk2, hn2, keep, _⟩ := eat_props (h.norm hn) hE hF hs'
-      refine ⟨s', hs', ⟨hi', ?_, ?_, ?_, fun _ => hn2, ?_, ?_⟩, keep.errors⟩
+      refine ⟨s', hs', ⟨hi', ?_, ?_, ?_, fun _ => hn2, ?_, ?_, ?_⟩, keep.errors⟩
       · rw [hkin, hcur] at hk2; simpa using hk2.symm
       · rw [keep.flag]; exact h.flag
       · rw [keep.locals]; exact h.locals
-      · exact h.b.grow' keep.parents keep.cur
+      · exact h.b.grow' keep.parents (keep.cur.imp fun _ hh => hh.1)
       · rw [keep.cps]; exact h.cp.grow' keep.parents keep.cur
+      · obtain ⟨n, e, ht⟩ := keep.cur
+        rw [keep.parents, e]; exact h.fr.grow ht
+
+theorem kindsOf_take_drop (n : Nat) (F : List Tree) : kindsOf F = kindsOf (F.take n) ++ kindsOf (F.drop n) := by
+  rw [← kindsOf_append, List.take_append_drop]
 
 /-- `start_node_at(checkpoint)` with the innermost checkpoint pointing at the innermost open node -/
-theorem sim_startNodeAt {s a} (h : Abs input C0 P0 s a) (k : SyntaxKind) {rest : List Nat}
-    (hcps : a.cps = 0 :: rest) :
+theorem sim_startNodeAt {s a} (h : Abs input C0 P0 s a) (k : SyntaxKind) {C : List SyntaxKind} {rest : CpStack}
+    (hcps : a.cps = (0, C) :: rest) :
     ∃ s', (match s.cps with
            | cp :: _ => s.startNodeAt cp k
            | [] => Res.panic Why.noCheckpoint) = .ok s' ∧
-      Abs input C0 P0 s' { a with depth := a.depth + 1, cps := cpsUp a.cps } ∧ s'.errors = s.errors := by
+      Abs input C0 P0 s' ⟨a.ks, a.flag, a.depth + 1, a.locals, cpsUp a.cps, a.norm,
+        a.cur.take (a.cur.length - C.length), (k, C) :: a.ps⟩ ∧
+      s'.errors = s.errors := by
   have hcp := h.cp
   rw [hcps] at hcp
   generalize hsc : s.cps = scps at hcp
   cases hcp with
   | @cons real _ reals _ hr hni htl =>
     obtain ⟨pl, cl⟩ := real
-    obtain ⟨h1, h2, h3⟩ := hr
+    obtain ⟨h1, h2, h3, h4⟩ := hr
     simp only [Nat.add_zero] at h1
-    simp only [frameOf] at h2
+    simp only [frameOf] at h2 h4
     simp only []
     have hne1 : ((pl, cl).1 != s.b.parents.length) = false := by simp [h1]
     have hne2 : ¬ ((pl, cl).2 > s.b.cur.length) := by simp; exact h2
@@ -325,7 +457,14 @@ theorem sim_startNodeAt {s a} (h : Abs input C0 P0 s a) (k : SyntaxKind) {rest :
       unfold PState.startNodeAt
       rw [hne1]
       simp only [Bool.false_eq_true, if_false, hne2]
-    refine ⟨_, hrun, ⟨PState.inv_startNodeAt h.inv _ k hrun, h.ks, h.flag, h.locals, h.norm, ?_, ?_⟩, rfl⟩
+    -- kinds of the two parts of the innermost frame
+    obtain ⟨t1, t2⟩ := h.fr.top
+    have hsplit := kindsOf_take_drop (s.b.cur.length - cl) s.b.cur
+    rw [t1, h4] at hsplit
+    have htake : kindsOf (s.b.cur.take (s.b.cur.length - cl)) = a.cur.take (a.cur.length - C.length) := by
+      rw [hsplit]; simp
+    obtain ⟨g1, g2⟩ := goodL_take_drop (s.b.cur.length - cl) s.b.cur t2
+    refine ⟨_, hrun, ⟨PState.inv_startNodeAt h.inv _ k hrun, h.ks, h.flag, h.locals, h.norm, ?_, ?_, ?_⟩, rfl⟩
     · -- builder
       have hb := h.b
       refine ⟨by simpa using hb.le, by simpa using hb.drop, ?_⟩
@@ -353,26 +492,37 @@ theorem sim_startNodeAt {s a} (h : Abs input C0 P0 s a) (k : SyntaxKind) {rest :
                       parents := (k, s.b.cur.drop (s.b.cur.length - cl)) :: s.b.parents } (a.depth + 1)
         s.cps (cpsUp a.cps)
       rw [hcps, hsc]
-      show CpInv C0 _ _ _ ((0 + 1) :: cpsUp rest)
+      show CpInv C0 _ _ _ ((0 + 1, C) :: cpsUp rest)
       refine CpAll.cons (R := CpRel C0 _ _)
-        (show CpRel C0 _ _ _ _ from ⟨by simp only [List.length_cons]; omega, ?_, fun hj' => h3 (by omega)⟩) ?_ ?_
+        (show CpRel C0 _ _ _ _ from ⟨by simp only [List.length_cons]; omega, ?_, fun hj' => h3 (by simp only [] at hj'; omega), ?_⟩) ?_ ?_
       · show cl ≤ (frameOf _ ((k, _) :: s.b.parents) (0 + 1)).length
         simp only [frameOf, List.length_drop]; omega
-      · intro hm
-        obtain ⟨y, hy, hy1⟩ := List.mem_map.mp hm
-        have : y = 0 := by omega
-        subst this; exact hni hy
+      · show kindsOf ((frameOf _ ((k, _) :: s.b.parents) (0 + 1)).drop _) = C
+        simp only [frameOf, List.length_drop]
+        have : s.b.cur.length - (s.b.cur.length - cl) - cl = 0 := by omega
+        rw [this, List.drop_zero]; exact h4
+      · intro q' hm hq'
+        obtain ⟨y, hy, rfl⟩ := List.mem_map.mp hm
+        simp only [] at hq'
+        exact hni y hy (by simp only []; omega)
       · apply CpAll.map (· + 1) htl
         · intro x _ y _ hxy; omega
-        · intro real j hj hr
-          obtain ⟨g1, g2, g3⟩ := hr
-          refine (show CpRel C0 _ _ _ _ from ⟨by simp only [List.length_cons]; omega, ?_, fun hj' => g3 (by omega)⟩)
-          cases j with
-          | zero => exact absurd hj hni
-          | succ j =>
-            show real.2 ≤ (frameOf _ ((k, _) :: s.b.parents) (j + 1 + 1)).length
-            simp only [frameOf]
-            rw [frameOf_pos _ s.b.cur]; exact g2
+        · intro real q hq hr
+          obtain ⟨g1', g2', g3', g4'⟩ := hr
+          have hq0 : q.1 ≠ 0 := fun h0 => hni q hq (by simp only []; omega)
+          obtain ⟨j, hj⟩ : ∃ j, q.1 = j + 1 := ⟨q.1 - 1, by omega⟩
+          rw [hj] at g2' g4'
+          refine (show CpRel C0 _ _ _ _ from ⟨by simp only [List.length_cons]; omega, ?_, fun hj' => g3' (by simp only [] at hj'; omega), ?_⟩)
+          · show real.2 ≤ (frameOf _ ((k, _) :: s.b.parents) (q.1 + 1)).length
+            rw [hj]; simp only [frameOf]
+            rw [frameOf_pos _ s.b.cur]; exact g2'
+          · show kindsOf ((frameOf _ ((k, _) :: s.b.parents) (q.1 + 1)).drop _) = q.2
+            rw [hj]; simp only [frameOf]
+            rw [frameOf_pos _ s.b.cur]; exact g4'
+    · -- frames
+      show FR P0 (s.b.cur.take (s.b.cur.length - cl)) ((k, s.b.cur.drop (s.b.cur.length - cl)) :: s.b.parents)
+        (a.cur.take (a.cur.length - C.length)) ((k, C) :: a.ps)
+      exact FR.step htake g1 (h.fr.setTop h4 g2)
 
 theorem sim (defs : Defs) (rc : List TokenKind) :
     ∀ (n : Nat) (p : Prog) (s : PState) (a a' : AState), Abs input C0 P0 s a →
@@ -390,7 +540,7 @@ theorem sim (defs : Defs) (rc : List TokenKind) :
     | startNode k =>
       simp only [aexec, Option.some.injEq] at h; subst h
       refine ⟨s.startNode k, by simp [exec], ⟨PState.inv_startNode habs.inv k, habs.ks, habs.flag,
-        habs.locals, habs.norm, habs.b.start k, habs.cp.start k⟩, rfl⟩
+        habs.locals, habs.norm, habs.b.start k, habs.cp.start k, habs.fr.start k⟩, rfl⟩
     | finishNode =>
       simp only [aexec] at h
       split at h
@@ -399,40 +549,52 @@ theorem sim (defs : Defs) (rc : List TokenKind) :
         split at h
         · cases h
         · rename_i h0
-          simp only [Option.some.injEq] at h; subst h
-          have h0 : a.cps.contains 0 = false := by simpa using h0
-          have hb := habs.b
-          have hcp := habs.cp
-          rw [hd] at hb hcp
-          have hle := hb.le
-          cases hp : s.b.parents with
-          | nil => rw [hp] at hle; simp at hle
-          | cons p ps =>
-            obtain ⟨k, sibs⟩ := p
-            have hfin : s.finishNode = .ok { s with b := { cur := Tree.node k s.b.cur.reverse :: sibs, parents := ps } } := by
-              unfold PState.finishNode; rw [hp]
-            refine ⟨_, by simp only [exec]; exact hfin, ⟨PState.inv_finishNode habs.inv hfin, ?_, habs.flag,
-              habs.locals, habs.norm, hb.finish hp _, hcp.finish hp h0 _⟩, rfl⟩
-            exact habs.ks
+          split at h
+          · cases h
+          · rename_i k asibs aps hps
+            split at h
+            · rename_i hgood
+              simp only [Option.some.injEq] at h; subst h
+              have h0 : hasTop a.cps = false := by simpa using h0
+              have hb := habs.b
+              have hcp := habs.cp
+              have hfr := habs.fr
+              rw [hd] at hb hcp
+              rw [hps] at hfr
+              cases hp : s.b.parents with
+              | nil =>
+                have hle := hb.le
+                rw [hp] at hle; simp at hle
+              | cons p ps =>
+                obtain ⟨k', sibs⟩ := p
+                rw [hp] at hfr
+                have hk : k' = k := by cases hfr with | step _ _ _ => rfl
+                subst hk
+                have hfin : s.finishNode = .ok { s with b := { cur := Tree.node k' s.b.cur.reverse :: sibs, parents := ps } } := by
+                  unfold PState.finishNode; rw [hp]
+                refine ⟨_, by simp only [exec]; exact hfin, ⟨PState.inv_finishNode habs.inv hfin, ?_, habs.flag,
+                  habs.locals, habs.norm, hb.finish hp _, hcp.finish hp h0 _, hfr.finish hgood⟩, rfl⟩
+                exact habs.ks
+            · cases h
     | pushCp =>
       simp only [aexec] at h
       split at h
       · cases h
       · rename_i h0
         simp only [Option.some.injEq] at h; subst h
-        have h0 : a.cps.contains 0 = false := by simpa using h0
+        have h0 : hasTop a.cps = false := by simpa using h0
         exact ⟨{ s with cps := (s.b.parents.length, s.b.cur.length) :: s.cps }, by simp only [exec],
           ⟨⟨habs.inv.text, habs.inv.pos, habs.inv.eof, habs.inv.err, habs.inv.errs, habs.inv.ne, habs.inv.capOk⟩,
-            habs.ks, habs.flag, habs.locals, habs.norm, habs.b, habs.cp.push habs.b h0⟩, rfl⟩
+            habs.ks, habs.flag, habs.locals, habs.norm, habs.b, habs.cp.push habs.b h0 a.cur habs.fr.top.1, habs.fr⟩, rfl⟩
     | popCp =>
       simp only [aexec, Option.some.injEq] at h; subst h
       exact ⟨{ s with cps := s.cps.tail }, by simp only [exec],
         ⟨⟨habs.inv.text, habs.inv.pos, habs.inv.eof, habs.inv.err, habs.inv.errs, habs.inv.ne, habs.inv.capOk⟩,
-          habs.ks, habs.flag, habs.locals, habs.norm, habs.b, habs.cp.tail⟩, rfl⟩
+          habs.ks, habs.flag, habs.locals, habs.norm, habs.b, habs.cp.tail, habs.fr⟩, rfl⟩
     | startNodeAtCp k =>
       simp only [aexec] at h
       split at h
-      · rename_i rest hcps
+      · rename_i C rest hcps
         simp only [Option.some.injEq] at h; subst h
         obtain ⟨s', hs', hab', her'⟩ := sim_startNodeAt habs k hcps
         exact ⟨s', by simp only [exec]; exact hs', hab', her'⟩
@@ -449,8 +611,10 @@ theorem sim (defs : Defs) (rc : List TokenKind) :
       obtain ⟨s', hs', hi'⟩ := skip_ok habs.inv
       obtain ⟨hk, hn, keep, _⟩ := skip_props _ hs'
       refine ⟨s', by simp only [exec]; exact hs', ⟨hi', by rw [hk]; exact habs.ks, by rw [keep.flag]; exact habs.flag,
-        by rw [keep.locals]; exact habs.locals, fun _ => hn, habs.b.grow' keep.parents keep.cur,
-        by rw [keep.cps]; exact habs.cp.grow' keep.parents keep.cur⟩, keep.errors⟩
+        by rw [keep.locals]; exact habs.locals, fun _ => hn,
+        habs.b.grow' keep.parents (keep.cur.imp fun _ hh => hh.1),
+        by rw [keep.cps]; exact habs.cp.grow' keep.parents keep.cur,
+        by obtain ⟨n, e, ht⟩ := keep.cur; rw [keep.parents, e]; exact habs.fr.grow ht⟩, keep.errors⟩
     | eatIf k =>
       simp only [aexec] at h
       split at h
@@ -555,15 +719,15 @@ theorem sim (defs : Defs) (rc : List TokenKind) :
     | pushLocal =>
       simp only [aexec, Option.some.injEq] at h; subst h
       exact ⟨{ s with locals := false :: s.locals }, by simp only [exec], ⟨⟨habs.inv.text, habs.inv.pos, habs.inv.eof, habs.inv.err, habs.inv.errs,
-        habs.inv.ne, habs.inv.capOk⟩, habs.ks, habs.flag, by simp [habs.locals], habs.norm, habs.b, habs.cp⟩, rfl⟩
+        habs.inv.ne, habs.inv.capOk⟩, habs.ks, habs.flag, by simp [habs.locals], habs.norm, habs.b, habs.cp, habs.fr⟩, rfl⟩
     | popLocal =>
       simp only [aexec, Option.some.injEq] at h; subst h
       exact ⟨{ s with locals := s.locals.tail }, by simp only [exec], ⟨⟨habs.inv.text, habs.inv.pos, habs.inv.eof, habs.inv.err, habs.inv.errs,
-        habs.inv.ne, habs.inv.capOk⟩, habs.ks, habs.flag, by simp [habs.locals], habs.norm, habs.b, habs.cp⟩, rfl⟩
+        habs.inv.ne, habs.inv.capOk⟩, habs.ks, habs.flag, by simp [habs.locals], habs.norm, habs.b, habs.cp, habs.fr⟩, rfl⟩
     | setLocal =>
       simp only [aexec, Option.some.injEq] at h; subst h
       exact ⟨{ s with locals := true :: s.locals.tail }, by simp only [exec], ⟨⟨habs.inv.text, habs.inv.pos, habs.inv.eof, habs.inv.err, habs.inv.errs,
-        habs.inv.ne, habs.inv.capOk⟩, habs.ks, habs.flag, by simp [habs.locals], habs.norm, habs.b, habs.cp⟩, rfl⟩
+        habs.inv.ne, habs.inv.capOk⟩, habs.ks, habs.flag, by simp [habs.locals], habs.norm, habs.b, habs.cp, habs.fr⟩, rfl⟩
     | ifLocal t e =>
       simp only [aexec] at h
       split at h
